@@ -77,7 +77,7 @@ func c09record(p *Prog, r *Report) {
 		// the verified block and signature are the ones recorded
 		okSame := true
 		for _, vc := range callsIn(fn, named(HG+".Block.Verify")) {
-			if !(sameOrigin(recvOf(vc), blk) && sameOrigin(argN(vc, 0), bs)) {
+			if !(commonOrigin(recvOf(vc), blk) && commonOrigin(argN(vc, 0), bs)) {
 				okSame = false
 			}
 		}
@@ -252,6 +252,18 @@ func c09anchor(p *Prog, r *Report) {
 			actions = append(actions, w.Instr)
 		}
 	}
+	// stores through the pointer (*h.AnchorBlock = i) written in place
+	for _, b := range fn.Blocks {
+		for _, in := range b.Instrs {
+			if st, ok := in.(*ssa.Store); ok {
+				if fv, _ := fieldOf(st.Addr); fv == fAnchor {
+					if _, isFA := st.Addr.(*ssa.FieldAddr); !isFA {
+						actions = append(actions, st)
+					}
+				}
+			}
+		}
+	}
 	if len(actions) == 0 {
 		r.Fail(rule, "SetAnchorBlock:action", p.pos(fn.Pos()), fnName(fn), "no anchor update found")
 	}
@@ -295,7 +307,8 @@ func c09anchor(p *Prog, r *Report) {
 		r.Check(ok1, rule, "SetAnchorBlock:len(Signatures)>TrustCount", p.ipos(a), fnName(fn), "anchor raised only with strictly more than TrustCount signatures of the block round's set", "anchor update not guarded by len(block.Signatures) > peerSet.TrustCount() (strict, set of block.RoundReceived())")
 		r.Check(ok2, rule, "SetAnchorBlock:monotone", p.ipos(a), fnName(fn), "anchor index only moves forward", "anchor update not guarded by AnchorBlock==nil || block.Index() > *AnchorBlock")
 	}
-	allowed := map[string]bool{"setAnchorBlock": true, "Reset": true}
+	// SetAnchorBlock itself may write (every write in it is an action decided above)
+	allowed := map[string]bool{"setAnchorBlock": true, "Reset": true, "SetAnchorBlock": true}
 	var bad []string
 	n := 0
 	for _, w := range p.writersOf(fAnchor) {
